@@ -1,6 +1,8 @@
 import YaqsModel.Lemmas.Tomo
 import YaqsModel.Lemmas.TomoWeights
 import YaqsModel.Lemmas.TomoField
+import YaqsModel.Lemmas.TomoComb
+import YaqsModel.Lemmas.TomoCombExec
 import Mathlib.Analysis.Normed.Group.Basic
 import Mathlib.LinearAlgebra.LinearIndependent.Defs
 import Mathlib.LinearAlgebra.Span.Defs
@@ -24,6 +26,12 @@ simulated exactly — back-end exactness is a numerical fact, measured by the co
 without hypotheses: the probes are informationally complete, the dual frame of the code is the unique solution of its
 defining equations, the code's Choi convention is consistent between `get_choi_basis` and the builder inside
 `predict_final_state`, and the contraction order matches the slot order.
+
+Extension (second half of this file, C17.5–C17.9): for the model of exact dynamics the property text talks about — joint
+operators on site 0 ⊗ environment, interventions acting through their Choi matrices in the code's convention, arbitrary
+segment matrices, partial trace, in the worker's order of operations — multilinearity is a **theorem**
+(`physComb_multilinear`), so `c17_exact_dynamics` (ℚ(i), executable), `c17_exact_dynamics_complex` (ℂ) and
+`c17_exact_dynamics_cp` (Kraus operators) have only the table hypothesis left.
 -/
 
 open Matrix
@@ -293,5 +301,268 @@ example : predict 2 (fun a b => if a.val = 1 ∧ b.val = 2 then (1 : CRatT) else
 /-- a multilinear comb for every `k`: `comb (J_1,…,J_k) = Tr(J_1 ⋯ J_k)` — `c17_partial_tabulated` applies to it -/
 noncomputable example (k : Nat) : MultilinearMap CRatT (fun _ : Fin k => Mat4) CRatT :=
   (Matrix.traceLinearMap (Fin 4) CRatT CRatT).compMultilinearMap (MultilinearMap.mkPiAlgebraFin CRatT k Mat4)
+
+/-! ## extension: the exact comb is multilinear — `c17_partial` without the physics hypothesis
+
+`Model/TomoComb.lean` / `Lemmas/TomoComb.lean` define the object the property text talks about, in the order of
+operations of `_tomography_sequence_worker` (for `k` interventions there are `k` segments; in every slot **first** the
+intervention on site 0, **then** the evolution of the whole chain; no evolution before the first intervention):
+
+  `physComb k U X₀ J o = ( Tr_env[ U_{k-1} (A_{J_{k-1}}⊗id)( … U_0 (A_{J_0}⊗id)(X₀) U_0ᴴ … ) U_{k-1}ᴴ ] )_o`
+
+for arbitrary joint matrices `U_t` (unitarity is not needed), an arbitrary joint operator `X₀` (the all-zeros product
+state in particular) and interventions given by their Choi matrices `J_t` in the code's convention
+(`J = Σ_ij A(|i⟩⟨j|) ⊗ |i⟩⟨j|`, `applyChoi`).  It is proved to be multilinear in `(J_0,…,J_{k-1})`, so the hypothesis
+"`comb` is multilinear" of `c17_partial` is discharged for the exact dynamics.  What remains a hypothesis in
+`c17_exact_dynamics` is only `htab`: the stored table holds the exact comb on the sixteen probe maps — i.e. "the
+simulator's segments are the exact evolution" together with `weights_step` / `weights_sequence`; this is a numerical fact
+about the back-ends, measured on every run (kinds `comb-exact`, `comb-real`, `heldout-entries` of `harness/impl/C17.py`). -/
+
+section ExactComb
+variable {K : Type*} [CommRing K] [StarRing K] {e : Type*} [Fintype e] [DecidableEq e]
+
+omit [StarRing K] [Fintype e] [DecidableEq e] in
+/-- **C17.5a** (`applyChoi_linear`) the action `(A_J ⊗ id)(X)` is linear in the Choi matrix `J` … -/
+theorem applyChoi_linear (c : K) (J J' : Matrix (Fin 4) (Fin 4) K) (X : Joint K e) :
+    applyChoi (c • J + J') X = c • applyChoi J X + applyChoi J' X := by
+  rw [applyChoi_add_left, applyChoi_smul_left]
+
+omit [StarRing K] [Fintype e] [DecidableEq e] in
+/-- … and in the operator `X` it acts on -/
+theorem applyChoi_linear_right (c : K) (J : Matrix (Fin 4) (Fin 4) K) (X X' : Joint K e) :
+    applyChoi J (c • X + X') = c • applyChoi J X + applyChoi J X' := by
+  rw [applyChoi_add_right, applyChoi_smul_right]
+
+omit [StarRing K] [Fintype e] [DecidableEq e] in
+/-- **C17.5b** `applyChoi J` is "the map with Choi matrix `J`, on site 0, identity on the environment": on product
+    operators `σ ⊗ τ` it returns `A_J(σ) ⊗ τ` with `A_J(σ)[a,b] = Σ_ij J[2a+i, 2b+j] σ[i,j]` (product operators span, so
+    together with `applyChoi_linear_right` this determines `applyChoi J`) -/
+theorem applyChoi_on_products (J : Matrix (Fin 4) (Fin 4) K) (σ : Matrix (Fin 2) (Fin 2) K) (τ : Matrix e e K) :
+    applyChoi J (kronJoint σ τ) = kronJoint (Matrix.of fun a b => ∑ i, ∑ j, J (idx4 a i) (idx4 b j) * σ i j) τ :=
+  applyChoi_kronJoint J σ τ
+
+/-- **C17.5c** (CP-map corollary, one Kraus operator) the map whose Choi matrix in the code's convention is
+    `vec(A) vec(A)ᴴ` (row-major `vec`) acts as `X ↦ (A⊗1) X (A⊗1)ᴴ` -/
+theorem applyChoi_single_kraus (A : Matrix (Fin 2) (Fin 2) K) (X : Joint K e) :
+    applyChoi (vecMulVec (rowVec A) (star (rowVec A))) X = liftSite A * X * (liftSite A)ᴴ :=
+  applyChoi_vecMulVec A X
+
+/-- **C17.5d** (CP-map corollary) for Kraus operators `{A_n}`: `applyChoi` of the Choi matrix `Σ_n vec(A_n) vec(A_n)ᴴ`
+    is `X ↦ Σ_n (A_n⊗1) X (A_n⊗1)ᴴ` — "any completely positive intervention" of the property text is an `applyChoi` -/
+theorem applyChoi_cp {ν : Type*} [Fintype ν] (A : ν → Matrix (Fin 2) (Fin 2) K) (X : Joint K e) :
+    applyChoi (krausChoi A) X = ∑ n, liftSite (A n) * X * (liftSite (A n))ᴴ :=
+  applyChoi_krausChoi A X
+
+omit [DecidableEq e] in
+/-- **C17.6a** order of operations, first slot: intervention `J_0` on the initial operator, then segment `U_0`, then the
+    remaining slots (`for step_i, duration in enumerate(timesteps): <reprepare>; <evolve>`) -/
+theorem physComb_first_slot (k : Nat) (U : Fin (k + 1) → Joint K e) (J : Fin (k + 1) → Matrix (Fin 4) (Fin 4) K)
+    (X : Joint K e) :
+    physState (k + 1) U J X = physState k (Fin.tail U) (Fin.tail J) (U 0 * applyChoi (J 0) X * (U 0)ᴴ) := rfl
+
+omit [DecidableEq e] in
+/-- **C17.6b** order of operations, last slot: the final state is `U_k (A_{J_k}⊗id)(state after k slots) U_kᴴ` — the last
+    thing that happens is a segment, not an intervention -/
+theorem physComb_last_slot (k : Nat) (U : Fin (k + 1) → Joint K e) (J : Fin (k + 1) → Matrix (Fin 4) (Fin 4) K)
+    (X : Joint K e) :
+    physState (k + 1) U J X =
+      U (Fin.last k) * applyChoi (J (Fin.last k)) (physState k (Fin.init U) (Fin.init J) X) * (U (Fin.last k))ᴴ :=
+  physState_snoc k U J X
+
+omit [DecidableEq e] in
+/-- **C17.6c** (`physComb_multilinear`) for every `k`, all segment matrices and every initial operator, each output
+    component of the exact comb is a multilinear function of the Choi matrices of the `k` interventions -/
+theorem physComb_multilinear (k : Nat) (U : Fin k → Joint K e) (X0 : Joint K e) (o : Fin 4) :
+    ∃ M : MultilinearMap K (fun _ : Fin k => Matrix (Fin 4) (Fin 4) K) K, ∀ J, M J = physComb k U X0 J o :=
+  ⟨physCombML k U X0 o, fun _ => rfl⟩
+
+omit [DecidableEq e] in
+/-- **C17.6d** with interventions given by Kraus operators the comb is the Choi-free expression
+    `Tr_env[ U_{k-1} Σ_n (A_{k-1,n}⊗1)( … )(A_{k-1,n}⊗1)ᴴ U_{k-1}ᴴ ]` -/
+theorem physComb_cp {ν : Type*} [Fintype ν] [DecidableEq e] (k : Nat) (U : Fin k → Joint K e)
+    (A : Fin k → ν → Matrix (Fin 2) (Fin 2) K) (X0 : Joint K e) (o : Fin 4) :
+    physComb k U X0 (fun t => krausChoi (A t)) o = ptrace (krausState k U A X0) (hi o) (lo o) := by
+  rw [physComb, physState_kraus]
+
+omit [DecidableEq e] in
+/-- **C17.7a** (`c17_exact_dynamics`, any commutative star ring `K ⊇ ℚ(i)`, e.g. ℂ) for every `k`, all joint matrices
+    `U_t`, every initial joint operator `X₀` and **all** 4×4 matrices `J_t`: if the table holds the exact comb on the
+    16^k probe sequences, then the sum evaluated by `predict_final_state` (`predict_contraction_order`), with the code's
+    basis and duals embedded into `K`, is the exact comb at `(J_0,…,J_{k-1})`.  No multilinearity hypothesis. -/
+theorem c17_exact_dynamics_ring (φ : CRatT →+* K) (hφ : ∀ z, φ (star z) = star (φ z)) {k : Nat}
+    (U : Fin k → Joint K e) (X0 : Joint K e) (o : Fin 4) (table : (Fin k → Fin 16) → K)
+    (htab : ∀ r, table r = physComb k U X0 (fun t => (toMat (choiB (r t))).map φ) o)
+    (J : Fin k → Matrix (Fin 4) (Fin 4) K) :
+    ∑ r : Fin k → Fin 16, (∏ t, trace (((toMat (choiD (r t))).map φ)ᴴ * J t)) * table r = physComb k U X0 J o := by
+  simp only [htab]
+  exact predict_sum_field φ hφ (fun b => toMat (choiB b)) (fun a => toMat (choiD a)) (by simp) dual_biorthogonal
+    (physCombML k U X0 o) J
+
+end ExactComb
+
+/-- **C17.7b** (`c17_exact_dynamics`, over ℂ) complex segment matrices (the unitaries `exp(-i H t)` of any Hamiltonian
+    in particular), any complex initial operator (the all-zeros state in particular), any complex `J_t` -/
+theorem c17_exact_dynamics_complex {e : Type*} [Fintype e] {k : Nat} (U : Fin k → Joint ℂ e) (X0 : Joint ℂ e) (o : Fin 4)
+    (table : (Fin k → Fin 16) → ℂ)
+    (htab : ∀ r, table r = physComb k U X0 (fun t => (toMat (choiB (r t))).map toComplex) o)
+    (J : Fin k → Matrix (Fin 4) (Fin 4) ℂ) :
+    ∑ r : Fin k → Fin 16, (∏ t, trace (((toMat (choiD (r t))).map toComplex)ᴴ * J t)) * table r =
+      physComb k U X0 J o :=
+  c17_exact_dynamics_ring toComplex toComplex_star U X0 o table htab J
+
+/-- **C17.7c** (over ℂ, "any completely positive intervention") with held-out interventions given by Kraus operators the
+    prediction is `Tr_env` of the state obtained by applying `Σ_n (A_{t,n}⊗1) · (A_{t,n}⊗1)ᴴ` and the segments in turn -/
+theorem c17_exact_dynamics_cp {e ν : Type*} [Fintype e] [DecidableEq e] [Fintype ν] {k : Nat} (U : Fin k → Joint ℂ e)
+    (X0 : Joint ℂ e) (o : Fin 4) (table : (Fin k → Fin 16) → ℂ)
+    (htab : ∀ r, table r = physComb k U X0 (fun t => (toMat (choiB (r t))).map toComplex) o)
+    (A : Fin k → ν → Matrix (Fin 2) (Fin 2) ℂ) :
+    ∑ r : Fin k → Fin 16, (∏ t, trace (((toMat (choiD (r t))).map toComplex)ᴴ * krausChoi (A t))) * table r =
+      ptrace (krausState k U A X0) (hi o) (lo o) := by
+  rw [c17_exact_dynamics_complex U X0 o table htab, physComb_cp]
+
+/-- **C17.7d** (`c17_exact_dynamics`, executable form over ℚ(i)) the same for the executable objects: `predict` (the loop
+    of `predict_final_state`) on a table that holds the executable comb `physCombE` on the probes returns `physCombE` on
+    every `(J_0,…,J_{k-1})`; every `k`, every environment dimension `d`, all `U_t`, `X₀` -/
+theorem c17_exact_dynamics {k d : Nat} (U : Fin k → JointE d) (X0 : JointE d) (o : Fin 4) (tens : TensK k)
+    (htab : ∀ r : Fin k → Fin 16, entry k tens r = physCombE d (List.ofFn fun t => (U t, choiB (r t))) X0 o)
+    (J : Fin k → M4) :
+    predict k tens (fun t => coeffs (J t)) = physCombE d (List.ofFn fun t => (U t, J t)) X0 o := by
+  rw [physCombE_ofFn, ← physCombML_apply]
+  refine c17_partial (physCombML k (fun t => toJoint (U t)) (toJoint X0) o) tens (fun r => ?_) (fun t => toMat (J t))
+  rw [htab r, physCombE_ofFn, physCombML_apply]
+
+/-- the table hypothesis of `c17_exact_dynamics` is satisfiable for every `k`, `d`, `U`, `X₀` (non-vacuity): tabulating
+    the exact comb on the probes and predicting reproduces the exact comb everywhere -/
+theorem c17_exact_dynamics_tabulated {k d : Nat} (U : Fin k → JointE d) (X0 : JointE d) (o : Fin 4) (J : Fin k → M4) :
+    predict k (tabulate k fun r => physCombE d (List.ofFn fun t => (U t, choiB (r t))) X0 o) (fun t => coeffs (J t)) =
+      physCombE d (List.ofFn fun t => (U t, J t)) X0 o :=
+  c17_exact_dynamics U X0 o _ (fun r => entry_tabulate k _ r) J
+
+/-! ### the executable comb is the comb of the theorems; links to the older model objects -/
+
+/-- **C17.8a** the executable comb (ℚ(i), `fsum`) is the matrix-level `physComb` -/
+theorem physCombE_is_physComb (k d : Nat) (U : Fin k → JointE d) (J : Fin k → M4) (X : JointE d) (o : Fin 4) :
+    physCombE d (List.ofFn fun t => (U t, J t)) X o =
+      physComb k (fun t => toJoint (U t)) (toJoint X) (fun t => toMat (J t)) o :=
+  physCombE_ofFn k d U J X o
+
+/-- **C17.8b** what the driver runs (`comb` request: every intermediate operator stored as data) equals `physCombE` -/
+theorem driver_comb_is_physCombE (d : Nat) (segs : List (JointE d × M4)) (X0 : JointE d) (o : Fin 4) :
+    physCombT d (segs.map fun s => (tabJ d s.1, s.2)) (tabJ d X0) o = physCombE d segs X0 o :=
+  physCombT_eq d segs X0 o
+
+/-- **C17.8c** the executable `applyChoiE` (`applychoi` request) is `applyChoi` -/
+theorem applyChoiE_is_applyChoi (d : Nat) (J : M4) (X : JointE d) :
+    toJoint (applyChoiE d J X) = applyChoi (toMat J) (toJoint X) :=
+  applyChoiE_eq d J X
+
+/-- **C17.8d** on products the executable action goes through `mapOfChoi J`, the inverse of the builder inside
+    `predict_final_state` (`choi_roundtrip`): `applyChoiE` uses the code's Choi convention -/
+theorem applyChoi_via_mapOfChoi (d : Nat) (J : M4) (σ : M2) (τ : Fin d → Fin d → CRatT) :
+    applyChoiE d J (fun x y => σ x.1 y.1 * τ x.2 y.2) = fun x y => mapOfChoi J σ x.1 y.1 * τ x.2 y.2 :=
+  applyChoiE_product d J σ τ
+
+/-- **C17.8e** (`applyChoi_of_probe`) for the probe `a = 4p+m` the action is the measure-and-prepare map
+    `ρ ↦ Tr_site0(E_m ρ) ⊗ ρ_p` of `weights_step` … -/
+theorem applyChoi_of_probe (d : Nat) (a : Fin 16) (X : JointE d) :
+    applyChoiE d (choiB a) X = applyBasisMap d (choiIdx a).2 (choiIdx a).1 X :=
+  applyChoiE_probe d a X
+
+/-- … hence one forced re-preparation of the real worker (probability × re-prepared state) is `applyChoi` of the
+    probe's Choi matrix on `|ψ⟩⟨ψ|` — the link between `weights_step` and the table hypothesis `htab` -/
+theorem probe_step_is_applyChoi (d : Nat) (a : Fin 16) (ψ : Fin 2 → Fin d → CRatT)
+    (h : prob d (choiIdx a).2 ψ = 0 ∨ thr15 < prob d (choiIdx a).2 ψ) (x y : Fin 2 × Fin d) :
+    rsmul (prob d (choiIdx a).2 ψ) (reprepDensity d (choiIdx a).2 (choiIdx a).1 ψ x y) =
+      applyChoiE d (choiB a) (outer d ψ) x y := by
+  rw [applyChoi_of_probe]
+  exact weights_step d (choiIdx a).2 (choiIdx a).1 ψ h x y
+
+/-- **C17.8f** the builder inside `predict_final_state` turns a map given by Kraus operators into `Σ_n vec(A_n) vec(A_n)ᴴ`
+    (so `applyChoi_cp` is about the matrix the real code computes) … -/
+theorem builder_on_kraus {ν : Type*} [Fintype ν] (A : ν → Matrix (Fin 2) (Fin 2) CRatT) :
+    choiOf (fun σ a b => ∑ n, (A n * toMat σ * (A n)ᴴ) a b) = krausChoi A :=
+  choiOf_kraus A
+
+/-- … and the executable `krausChoiE` (`krauschoi` request) is that matrix -/
+theorem krausChoiE_is_krausChoi (n : Nat) (A : Fin n → M2) :
+    toMat (krausChoiE (List.ofFn A)) = krausChoi (fun i => toMat (A i)) :=
+  krausChoiE_ofFn n A
+
+/-! ### pure states: what the worker's vector-level run has to do with the table hypothesis -/
+
+/-- **C17.9a** (any commutative star ring) from a pure initial state, with one Kraus operator `A_t` per slot (the probes
+    are of that kind), the state of the exact comb stays pure and is `|φ⟩⟨φ|` for the vector-level run
+    `φ = U_{k-1}(A_{k-1}⊗1) … U_0 (A_0⊗1) ψ₀` — the un-normalised sequence `rawRun` that `weights_sequence` shows the
+    worker's `weight × final state` to be equal to -/
+theorem physComb_pure {K : Type*} [CommRing K] [StarRing K] {e : Type*} [Fintype e] [DecidableEq e] (k : Nat)
+    (U : Fin k → Joint K e) (A : Fin k → Matrix (Fin 2) (Fin 2) K) (ψ : Fin 2 × e → K) :
+    physState k U (fun t => vecMulVec (rowVec (A t)) (star (rowVec (A t)))) (vecMulVec ψ (star ψ)) =
+      vecMulVec (pureRun k U A ψ) (star (pureRun k U A ψ)) :=
+  physState_pure k U A ψ
+
+/-- **C17.9b** every probe Choi matrix of the code is rank one: `B_{4p+m} = scale_p·scale_m · vec(A) vec(A)ᴴ` with
+    `A = |vec_p⟩⟨vec_m|` (the projection-and-re-preparation operator of `_reprepare_site_zero[_vector]_forced`) -/
+theorem probe_choi_rank_one (a : Fin 16) :
+    toMat (choiB a) =
+      ofRat (probeScale a) • vecMulVec (rowVec (toMat (probeOp a))) (star (rowVec (toMat (probeOp a)))) :=
+  choiB_rank_one a
+
+/-- **C17.9c** (what `htab` asks of an exact simulator) for every probe sequence `r`, every `k`, `d`, `U_t` and pure
+    initial state `ψ₀`: the exact comb on the probes is `Π_t scale(r_t) · Tr_env |φ_r⟩⟨φ_r|` with `φ_r` the vector-level run
+    of the probe operators.  Together with `weights_sequence` (worker's `weight × reduced final state` = the quadratic
+    read-out of that run) the table hypothesis of `c17_exact_dynamics` is reduced to "each segment call returns
+    `U_t ψ`" — the numerical fact about the back-ends that the kinds `comb-real*` / `heldout-entries` measure, and
+    that `comb-exact*` makes true by construction. -/
+theorem table_entry_of_exact_worker (k d : Nat) (U : Fin k → JointE d) (ψ0 : Fin 2 × Fin d → CRatT)
+    (r : Fin k → Fin 16) (o : Fin 4) :
+    physComb k (fun t => toJoint (U t)) (vecMulVec ψ0 (star ψ0)) (fun t => toMat (choiB (r t))) o =
+      (∏ t, ofRat (probeScale (r t))) *
+        ptrace (vecMulVec (pureRun k (fun t => toJoint (U t)) (fun t => toMat (probeOp (r t))) ψ0)
+          (star (pureRun k (fun t => toJoint (U t)) (fun t => toMat (probeOp (r t))) ψ0))) (hi o) (lo o) :=
+  physComb_probes_pure k d U ψ0 r o
+
+/-- the probe operators are not trivial: probe 6 = prepare `|1⟩`, project on `x+`: `A = |1⟩(⟨0|+⟨1|)`, scale `1/2` -/
+example : probeOp 6 = mk2 0 0 1 1 ∧ probeScale 6 = 1/2 := by
+  constructor
+  · funext i j; revert i j; decide +kernel
+  · decide +kernel
+
+/-! ### non-vacuity: a concrete two-site chain (`d = 2`) -/
+
+/-- a unitary over ℚ(i) on two qubits that moves the environment into site 0: `(R ⊗ 1)·SWAP` with
+    `R = [[3/5, 4i/5], [4i/5, 3/5]]` -/
+def exU : JointE 2 := fun x y => mk2 ⟨3/5, 0⟩ ⟨0, 4/5⟩ ⟨0, 4/5⟩ ⟨3/5, 0⟩ x.1 y.2 * (if x.2 = y.1 then 1 else 0)
+
+/-- the all-zeros state `|00⟩⟨00|` -/
+def exZero : JointE 2 := fun x y => if x.1.val = 0 ∧ x.2.val = 0 ∧ y.1.val = 0 ∧ y.2.val = 0 then 1 else 0
+
+/-- `exU` is unitary: `U 1 Uᴴ = 1` -/
+example : evolveE 2 exU (fun x y => if x = y then 1 else 0) = fun x y => if x = y then 1 else 0 := by
+  funext x y; revert x y; decide +kernel
+
+/-- one slot, identity intervention: the reduced state of site 0 after the segment is `R|0⟩⟨0|Rᴴ` -/
+example : (fun o => physCombE 2 [(exU, choiOf fun σ => σ)] exZero o) =
+    fun o => if o.val = 0 then ⟨9/25, 0⟩ else if o.val = 1 then ⟨0, -12/25⟩ else if o.val = 2 then ⟨0, 12/25⟩
+      else ⟨16/25, 0⟩ := by
+  funext o; revert o; decide +kernel
+
+/-- two slots: memory — the state prepared by the first intervention (probe 4 = prepare `|1⟩`, measure `|0⟩`) comes
+    back to site 0 after the second segment although the second intervention (probe 0) re-prepares `|0⟩` -/
+example : physCombT 2 [(tabJ 2 exU, choiB 0), (tabJ 2 exU, choiB 0)] (tabJ 2 exZero) 3 ≠
+    physCombT 2 [(tabJ 2 exU, choiB 4), (tabJ 2 exU, choiB 0)] (tabJ 2 exZero) 3 := by
+  decide +kernel
+
+/-- `c17_exact_dynamics` at work on that chain: the table of the sixteen probe runs, contracted with the dual
+    coefficients of the (held-out) identity channel, gives the component `9/25` computed directly above -/
+example : predict 1 (tabulate 1 fun r => physCombE 2 (List.ofFn fun t : Fin 1 => (exU, choiB (r t))) exZero 0)
+    (fun _ => coeffs (choiOf fun σ => σ)) = ⟨9/25, 0⟩ :=
+  (c17_exact_dynamics_tabulated (k := 1) (d := 2) (fun _ => exU) exZero 0 (fun _ => choiOf fun σ => σ)).trans
+    (by decide +kernel)
+
+/-- a non-unitary Kraus pair (amplitude damping with `γ = 16/25`): its Choi matrix in the code's convention -/
+example : krausChoiE [mk2 1 0 0 ⟨3/5, 0⟩, mk2 0 ⟨4/5, 0⟩ 0 0] =
+    fun r c => if r.val = 0 ∧ c.val = 0 then 1 else if (r.val = 0 ∧ c.val = 3) ∨ (r.val = 3 ∧ c.val = 0) then ⟨3/5, 0⟩
+      else if r.val = 3 ∧ c.val = 3 then ⟨9/25, 0⟩ else if r.val = 1 ∧ c.val = 1 then ⟨16/25, 0⟩ else 0 := by
+  funext r c; revert r c; decide +kernel
 
 end Yaqs.Tomo
